@@ -24,6 +24,8 @@ CHECKS = {
              text='All five update kinds (equal/different price, present/absent id) from an arbitrary level state and inside histories of depth D are compared with the statement (returned order, removed exactly it, others and identity fields untouched, new display for Standard/PostOnly/Iceberg, not-found/rejection change nothing); 14 read-only entry points must leave the complete level state equal.'),
  'C08': dict(technique=CONC, ref='6.8',
              text='Level part only: at quiescence of every well-nested two-thread schedule every resting order is covered by an available ticket (so matching reaches it), aggregates equal sums, nothing handed out twice. The bare-OrderQueue programs of the quantifier are exercised only through the level operations.'),
+ 'C09': dict(technique='symbolic execution of the crate MIR -> SMT with a recording serializer and an abstract injective digest (the real Serialize impl, Package::new, validate, into_snapshot are executed); models replayed through the real serde_json + SHA-256 path', ref='6.9',
+             text='PARTIAL (validation logic and checksum coverage): for ANY replacement of the version and of the snapshot content (price, aggregates, number/sequence of orders, every order field; <= 2 orders) under the original checksum, the restore path succeeds only if version == 1 and the content is the checksummed one; untouched packages are accepted. Byte-level faults on the JSON text (substitution, insertion, deletion, truncation) go through the serde_json parser and are NOT covered.'),
  'C10': dict(technique='bounded symbolic execution of the crate MIR -> SMT: structural round trips from an arbitrary level state, constructors fed arbitrary carried aggregates, listing under a symbolic map iteration order; models replayed on the real crate', ref='6.10',
              text='PARTIAL (structural conversions only): snapshot -> from_snapshot, &snapshot -> From, level-data -> try_from from an ARBITRARY level state give the same price, orders field for field and aggregates; constructors fed snapshots / level-data with ARBITRARY carried aggregates still report the sums of the contained orders; iter_orders lists each resting order once in non-decreasing timestamp order for every map iteration order. JSON / text / package bytes are outside (C16/C17 reasons).'),
  'C11': dict(technique='two-run bounded symbolic execution of the crate MIR -> SMT (original vs snapshot-restored copy of an arbitrary level state, same continuation); both runs replayed on the real crate', ref='6.11',
